@@ -346,7 +346,7 @@ func (p *Parser) peekPrecedence() int {
 	if prec, ok := p.precedences[p.PeekToken.Type]; ok {
 		return prec
 	}
-	return LOWEST
+	return LOWEST - 1 // not an operator: below every level an operator can be registered at
 }
 
 // currentPrecedence returns the operator precedence of the current token.
@@ -356,7 +356,7 @@ func (p *Parser) currentPrecedence() int {
 	if prec, ok := p.precedences[p.CurrentToken.Type]; ok {
 		return prec
 	}
-	return LOWEST
+	return LOWEST - 1
 }
 
 // useStatementInterceptor applies a middleware interceptor to statement parsing.
